@@ -170,6 +170,7 @@ def _context_plumbing(ck, repo, w):
                         read.add(n.slice.value)
         ck.ob(f"records stored under `{key}` carry every field the reading rule uses", bool(written) and read <= written, where=TRANS, construct=f"plumbing:record:{key}",
               detail=f"written {sorted(written)} read {sorted(read)}")
+    _context_freshness(ck, repo, w)
     for key in ("used_vars", "spreads", "args_using_var"):
         writers = [f.name for f in w.trans.funcs.values() for n in walk_no_nested(f.node) if isinstance(n, ast.Call) and callee_last(n) == "setdefault"
                    and n.args and isinstance(n.args[0], ast.Constant) and n.args[0].value == key]
@@ -179,6 +180,90 @@ def _context_plumbing(ck, repo, w):
                 rd += sum(1 for n in ast.walk(mod.tree) if isinstance(n, ast.Constant) and n.value == key)
         ck.ob(f"per-operation / per-fragment record `{key}` is written for both scopes and read by a rule", len(writers) == 2 and rd >= 1, where=TRANS,
               construct=f"plumbing:scoped:{key}", detail=f"writers {writers}, reads {rd}")
+
+
+def _context_freshness(ck, repo, w):
+    """A context key that a parser writes for its children (without save/restore) must still hold that
+    value when a child reads it: inside the writer, no call that can reach a reader of the key is
+    evaluated after a call that can reach another writer of it."""
+    from ..effects import CallGraph
+    trans = w.trans
+    funcs = trans.funcs
+    # local call graph of the transformer module, dispatch tables included
+    def callees(f):
+        out = set()
+        for c in FuncView(f).calls():
+            d = c.func
+            if isinstance(d, ast.Name) and d.id in funcs:
+                out.add(d.id)
+            elif isinstance(d, ast.Subscript) and isinstance(d.value, ast.Name) and d.value.id in trans.assigns and isinstance(trans.assigns[d.value.id], ast.Dict):
+                out |= {unparse(v) for v in trans.assigns[d.value.id].values if unparse(v) in funcs}
+        return out
+    direct = {n: callees(f) for n, f in funcs.items() if "." not in n}
+    def reach(names):
+        seen, todo = set(), list(names)
+        while todo:
+            x = todo.pop()
+            if x in seen or x not in direct:
+                continue
+            seen.add(x)
+            todo.extend(direct[x])
+        return seen
+    readers, writers = {}, {}
+    for n, f in funcs.items():
+        for x in walk_no_nested(f.node):
+            if isinstance(x, ast.Subscript) and unparse(x.value) == "validators.ctx" and isinstance(x.slice, ast.Constant):
+                (readers if isinstance(x.ctx, ast.Load) else writers).setdefault(x.slice.value, set()).add(n)
+            if isinstance(x, ast.Call) and callee_last(x) == "get" and unparse(x.func.value) == "validators.ctx" and x.args and isinstance(x.args[0], ast.Constant):
+                readers.setdefault(x.args[0].value, set()).add(n)
+    n_checked = 0
+    for key in sorted(writers):
+        if key == "parent_type_name":
+            continue  # save/restore discipline: C06.R3 / C07.R7
+        for wn in sorted(writers[key]):
+            f = funcs[wn]
+            fv = FuncView(f)
+            events = []
+            for x in walk_no_nested(f.node):
+                if isinstance(x, ast.Assign) and any(isinstance(t, ast.Subscript) and unparse(t) == f"validators.ctx['{key}']" for t in x.targets):
+                    events.append(((x.end_lineno, x.end_col_offset), "write", x))
+                elif isinstance(x, ast.Call):
+                    tg = set()
+                    if isinstance(x.func, ast.Name) and x.func.id in funcs:
+                        tg = {x.func.id}
+                    elif isinstance(x.func, ast.Subscript) and isinstance(x.func.value, ast.Name) and x.func.value.id in trans.assigns and isinstance(trans.assigns[x.func.value.id], ast.Dict):
+                        tg = {unparse(v) for v in trans.assigns[x.func.value.id].values if unparse(v) in funcs}
+                    if tg:
+                        r = reach(tg)
+                        # readers reached without first crossing a function that (re)writes the key itself
+                        seen, todo = set(), list(tg)
+                        while todo:
+                            y = todo.pop()
+                            if y in seen or y not in direct:
+                                continue
+                            seen.add(y)
+                            if y in writers[key]:
+                                continue
+                            todo.extend(direct[y])
+                        unshielded = {y for y in seen if y not in writers[key]}
+                        events.append(((x.end_lineno, x.end_col_offset), "call", x, bool(unshielded & readers.get(key, set())), bool(r & writers[key])))
+            events.sort(key=lambda e: e[0])
+            stale = False
+            bad = None
+            started = False
+            for e in events:
+                if e[1] == "write":
+                    stale, started = False, True
+                elif started:
+                    if e[3] and stale:
+                        bad = bad or e[2]
+                    if e[4]:
+                        stale = True
+            n_checked += 1
+            ck.ob(f"{wn}: children that read context key `{key}` are parsed before any child that can overwrite it", bad is None, f, bad if bad is not None else f.node,
+                  construct=f"freshness:{wn}:{key}",
+                  detail="e.g. parsing a field's selection set before its arguments leaves `current_field_name` naming the last nested field: the argument's variable usage is recorded under the wrong field and never type-checked")
+    ck.counts["context_key_writers_checked"] = n_checked
 
 
 def _errors_kept(ck, repo, w):
